@@ -25,11 +25,12 @@ type idleCase struct {
 	Wait     int    // seconds of virtual time that pass while the first sync is parked
 	Third    bool   // a further publish + announce after the second
 	Discover bool
+	AtHead   bool // the first (explicit) sync is parked at its head query instead of its first block request
 }
 
 func TestC08_LongSync(t *testing.T) {
 	pbt.Run(t, pbt.Config{Prop: "C08", Unit: "TestC08_LongSync", TrackCurrent: true,
-		Rule: "one publisher; a first sync (announce-triggered, explicit, or an entries sync) is parked at the publisher's gate; virtual time advances by a drawn amount around the subscriber's idle-handler time-to-live (1..5 s; HTTP timeout 1 h, so the sync itself just takes long); then more ads are published and a second sync arrives (announcement or explicit), optionally a third announcement; then the gate opens; oracle at exact quiescence: never two block requests of the publisher in flight at once, every advertisement up to latest-sync reported exactly once, latest-sync = the last head. Non-trivial: the wait exceeds the time-to-live; distinct by case.",
+		Rule: "one publisher; a first sync (announce-triggered, explicit, or an entries sync) is parked at the publisher's gate (at its first block request, or, for an explicit sync, at its head query); virtual time advances by a drawn amount around the subscriber's idle-handler time-to-live (1..5 s; HTTP timeout 1 h, so the sync itself just takes long); then more ads are published and a second sync arrives (announcement or explicit), optionally a third announcement; then the gate opens; oracle at exact quiescence: never two block requests of the publisher in flight at once, every advertisement up to latest-sync reported exactly once, latest-sync = the last head. Non-trivial: the wait exceeds the time-to-live; distinct by case.",
 	}, func(t *rapid.T) idleCase {
 		c := idleCase{N1: rapid.IntRange(1, 4).Draw(t, "n1"), N2: rapid.IntRange(1, 3).Draw(t, "n2"), TTLs: rapid.IntRange(1, 5).Draw(t, "ttl")}
 		c.First = rapid.SampledFrom([]string{"announce", "announce", "sync", "entries"}).Draw(t, "first")
@@ -40,6 +41,7 @@ func TestC08_LongSync(t *testing.T) {
 		}
 		c.Third = rapid.Bool().Draw(t, "third")
 		c.Discover = rapid.Bool().Draw(t, "discovery")
+		c.AtHead = c.First == "sync" && rapid.Bool().Draw(t, "athead")
 		return c
 	}, func(c idleCase) (res pbt.Result) {
 		res.NonTrivial = c.Wait > c.TTLs
@@ -64,7 +66,11 @@ func TestC08_LongSync(t *testing.T) {
 				return
 			}
 			ctx := context.Background()
-			p.Hold()
+			if c.AtHead {
+				p.HoldHeads() // the explicit sync waits for the publisher's head: it has not started to transfer yet
+			} else {
+				p.Hold()
+			}
 			firstDone := make(chan error, 1)
 			switch c.First {
 			case "announce":
@@ -77,9 +83,10 @@ func TestC08_LongSync(t *testing.T) {
 				go func() { firstDone <- s.S.SyncEntries(ctx, p.Info(), head) }()
 			}
 			synctest.Wait() // nothing else touches this publisher: the parked sync is the only lock holder, nobody contends
-			if p.Parked() != 1 {
-				viol = fmt.Sprintf("the first sync did not park (parked=%d)", p.Parked())
+			if p.Parked()+p.ParkedHeads() != 1 {
+				viol = fmt.Sprintf("the first sync did not park (parked=%d)", p.Parked()+p.ParkedHeads())
 				p.Open()
+				p.OpenHeads()
 				return
 			}
 			time.Sleep(time.Duration(c.Wait) * time.Second) // the sync simply takes this long
@@ -101,6 +108,7 @@ func TestC08_LongSync(t *testing.T) {
 			}
 			inflight := p.MaxInFlt
 			p.Open()
+			p.OpenHeads()
 			w.SettleUntilCap(func() bool { return len(firstDone) == 1 && len(secondDone) == 1 }, 50000)
 			if len(firstDone) != 1 || len(secondDone) != 1 {
 				panic("VERIF-NORETURN: a sync call has not returned 10 s after the gate was opened")
